@@ -146,7 +146,7 @@ def run(ctx):
         fe_ok = bool(fe) and F.projection_root(strip_sites(fe[0].args[0])) is not None
         ctx.ob("E6.share", fk, id_ok and val_ok and fe_ok, "produced share: identifier := identifier(secret share) [%s]; value := %s [%s]; scalar from the secret share via as_field_element [%s]" % (id_ok, desc, val_ok, fe_ok), where=where(f))
     # partial sign wrappers route (tag, message)
-    K.check_core_table(ctx, P, traits=("BlsSignatureBasic", "BlsSignaturePop"))
+    K.check_core_siblings(ctx, P, traits=("BlsSignatureBasic", "BlsSignaturePop"), methods_sign=("partial_sign", "sign"), methods_verify=("partial_verify", "verify", "multi_sig_verify"))
     f = ctx.need_fn("E2-A", "SecretKeyShare<C>::sign")
     if f is not None:
         n, _ = check_arm_purity(ctx, "E2-A", P, [f])
